@@ -15,6 +15,13 @@ CLAIMED = {
         "note": "Trusted: the reference LRU model and linearizability checker in sim/models.py; CPython GIL atomicity of single bytecode instructions and of C-level dict/deque calls; SimLock has the semantics of threading.Lock. Free-threaded builds are not modelled.",
         "design": "DESIGN.md §4 C26, §3.3",
     },
+    "C36": {
+        "level": "fault_enumeration",
+        "technique": "deterministic simulation: virtual-time asyncio loop (seeded ready-queue choice), fault enumeration of cancel / early-close / data-exception positions, CPython asyncgen hooks as oracle",
+        "text": "Per sampled async template set, every position of three fault kinds measured on its clean run is injected under a simulated event loop (thorough: all positions; quick: a seeded sample): consumer aclose() after k chunks, cancellation of the render task after its k-th loop step with other tasks interleaved from the seed, the k-th data event raising (Exception / BaseException), each through the async and the sync API. When the render's task finishes no template async generator may be unfinished, none may reach the GC finalizer hook, and no never-awaited/unraisable/loop-exception report may appear. Workloads are sampled, positions within a workload are enumerated.",
+        "note": "Trusted: CPython's asyncgen firstiter/finalizer hooks and ag_frame as the ground truth of 'closed'; SimLoop (BaseEventLoop subclass, real Tasks) schedules faithfully; template generators are recognised by co_filename '<template>'. Data and filter async generators are outside the property's list and only counted.",
+        "design": "DESIGN.md §4 C36, §3.4",
+    },
 }
 
 PENDING_REASON = "check not built yet in this session (planned as a simulation check, DESIGN.md §4); not claimed until it exists"
